@@ -1,6 +1,6 @@
 //go:build verif
 
-package rsa
+package rsa_test
 
 // C17 (threshold RSA half): for every player count l, threshold k and RSA key, the
 // partial signatures of any k or more distinct players combine to a signature that
@@ -8,107 +8,21 @@ package rsa
 //
 // Bounded exhaustive enumeration over (key, l, k, padding, blinding, caching, subset,
 // order) on the real Deal / Sign / CombineSignShares; the oracle is crypto/rsa.
-// In-package only to read the dealt share values for the diagnosis that goes into the
-// violation key (are the dealt shares on the sharing polynomial or not).
+// Exported API only; the dealt share values for the diagnosis in the violation key (are the
+// dealt shares on the sharing polynomial or not) are read from KeyShare.MarshalBinary.
 
 import (
-	"crypto"
 	"crypto/rsa"
-	"crypto/sha256"
-	"crypto/x509"
-	"encoding/pem"
 	"fmt"
 	"io"
 	"math/big"
-	"os"
-	"path/filepath"
 	"strconv"
-	"strings"
 	"testing"
 
 	"github.com/cloudflare/circl/internal/verifmc"
 	"github.com/cloudflare/circl/internal/verifref/shamir"
+	tss "github.com/cloudflare/circl/tss/rsa"
 )
-
-func c17LoadKey(t testing.TB, name string) *rsa.PrivateKey {
-	dir := os.Getenv("VERIF_DIR")
-	if dir == "" {
-		dir = "/verif"
-	}
-	raw, err := os.ReadFile(filepath.Join(dir, "ref", "testdata", name+".pem"))
-	if err != nil {
-		t.Fatalf("harness: key fixture: %v", err)
-	}
-	blk, _ := pem.Decode(raw)
-	if blk == nil {
-		t.Fatalf("harness: key fixture %s is not PEM", name)
-	}
-	key, err := x509.ParsePKCS1PrivateKey(blk.Bytes)
-	if err != nil {
-		t.Fatalf("harness: key fixture %s: %v", name, err)
-	}
-	if err := key.Validate(); err != nil || len(key.Primes) != 2 {
-		t.Fatalf("harness: key fixture %s unusable: %v", name, err)
-	}
-	return key
-}
-
-type c17Mode struct {
-	pad   string // pkcs1v15 | pss-salt32 | pss-saltauto
-	blind int    // 0 none, 1 blinded, 2 blinded with the parallel flag
-	cache bool   // Deal(cache)
-}
-
-func (m c17Mode) String() string {
-	return fmt.Sprintf("%s,%s,%s", m.pad, []string{"unblinded", "blinded", "blinded-parallel"}[m.blind],
-		map[bool]string{true: "cached", false: "uncached"}[m.cache])
-}
-
-var c17Pads = []string{"pkcs1v15", "pss-salt32", "pss-saltauto"}
-
-func c17AllModes() []c17Mode {
-	var out []c17Mode
-	for _, p := range c17Pads {
-		for b := 0; b < 3; b++ {
-			for _, c := range []bool{true, false} {
-				out = append(out, c17Mode{p, b, c})
-			}
-		}
-	}
-	return out
-}
-
-var (
-	c17ModeA = c17Mode{"pkcs1v15", 0, true}
-	c17ModeB = c17Mode{"pss-salt32", 2, false}
-)
-
-var c17Msgs = [][]byte{[]byte("verif-c17 message A"), verifmc.Msg(300)}
-
-// c17Pad returns the padded representative that every player signs.
-func c17Pad(pad string, pub *rsa.PublicKey, msg []byte, label string) ([]byte, error) {
-	switch pad {
-	case "pkcs1v15":
-		return PadHash(PKCS1v15Padder{}, crypto.SHA256, pub, msg)
-	case "pss-salt32":
-		return PadHash(&PSSPadder{Rand: verifmc.NewDetReader("c17-salt/" + label), Opts: &rsa.PSSOptions{SaltLength: rsa.PSSSaltLengthEqualsHash, Hash: crypto.SHA256}}, crypto.SHA256, pub, msg)
-	default:
-		return PadHash(&PSSPadder{Rand: verifmc.NewDetReader("c17-salt/" + label), Opts: nil}, crypto.SHA256, pub, msg)
-	}
-}
-
-// c17StdVerify is the oracle: crypto/rsa on the message digest.
-func c17StdVerify(pad string, pub *rsa.PublicKey, msg, sig []byte) error {
-	d := sha256.Sum256(msg)
-	switch pad {
-	case "pkcs1v15":
-		return rsa.VerifyPKCS1v15(pub, crypto.SHA256, d[:], sig)
-	case "pss-salt32":
-		return rsa.VerifyPSS(pub, crypto.SHA256, d[:], sig, &rsa.PSSOptions{SaltLength: rsa.PSSSaltLengthEqualsHash, Hash: crypto.SHA256})
-	default:
-		return rsa.VerifyPSS(pub, crypto.SHA256, d[:], sig, &rsa.PSSOptions{SaltLength: rsa.PSSSaltLengthAuto, Hash: crypto.SHA256})
-	}
-}
 
 // input classes, decided on the integers (they say what a subset demands of the arithmetic, not what the code does)
 
@@ -163,18 +77,6 @@ func c17BigPower(S []int, k int) bool {
 	return false
 }
 
-func c17SetString(S []int) string {
-	s := make([]string, len(S))
-	for i, v := range S {
-		s[i] = strconv.Itoa(v)
-	}
-	return strings.Join(s, ",")
-}
-
-func c17WantPrefix(r *verifmc.Run, prefix string) bool {
-	return !r.Replaying() || strings.HasPrefix(r.ReplayCase(), prefix) || strings.HasPrefix(prefix, r.ReplayCase())
-}
-
 // c17Dealing is one Deal plus the sign shares of every player for each message.
 type c17Dealing struct {
 	keyName string
@@ -183,9 +85,9 @@ type c17Dealing struct {
 	mode    c17Mode
 	tag     string
 	m, e    *big.Int
-	ks      []KeyShare
-	padded  [][]byte      // per message
-	ss      [][]SignShare // per message, per player
+	ks      []tss.KeyShare
+	padded  [][]byte          // per message
+	ss      [][]tss.SignShare // per message, per player
 	ok      bool
 	ov      *verifmc.OrderedViolations
 	sample  func(mi int, S []int) bool
@@ -219,7 +121,7 @@ func c17Deal(r *verifmc.Run, ov *verifmc.OrderedViolations, keyName string, key 
 	d.e = big.NewInt(int64(key.E))
 	var err error
 	if p, what := verifmc.Try(func() {
-		d.ks, err = Deal(verifmc.NewDetReader("c17-deal/"+d.tag), uint(l), uint(k), key, mode.cache)
+		d.ks, err = tss.Deal(verifmc.NewDetReader("c17-deal/"+d.tag), uint(l), uint(k), key, mode.cache)
 	}); p {
 		d.viol(0, nil, "C17|tss/rsa.Deal|panic:"+verifmc.PanicClass(what), d.tag, d.tag+": Deal panicked: "+what, nil)
 		return d
@@ -242,7 +144,7 @@ func c17Deal(r *verifmc.Run, ov *verifmc.OrderedViolations, keyName string, key 
 			return d
 		}
 		d.padded = append(d.padded, padded)
-		shares := make([]SignShare, l)
+		shares := make([]tss.SignShare, l)
 		for i := range d.ks {
 			var rnd io.Reader
 			if mode.blind != 0 {
@@ -271,16 +173,16 @@ func (d *c17Dealing) combine(r *verifmc.Run, mi int, S []int) {
 	if !r.Want(caseID) {
 		return
 	}
-	shares := make([]SignShare, len(S))
+	shares := make([]tss.SignShare, len(S))
 	for i, p := range S {
 		shares[i] = d.ss[mi][p-1]
 	}
 	pub := &d.key.PublicKey
-	var sig Signature
+	var sig tss.Signature
 	var err error
 	r.Eval(1)
 	r.Distinct(caseID)
-	panicked, what := verifmc.Try(func() { sig, err = CombineSignShares(pub, shares, d.padded[mi]) })
+	panicked, what := verifmc.Try(func() { sig, err = tss.CombineSignShares(pub, shares, d.padded[mi]) })
 	replay := map[string]interface{}{"key": d.keyName, "players_l": d.l, "threshold_k": d.k, "mode": d.mode.String(), "message": mi, "subset_in_order": S}
 	if panicked {
 		r.Outcome("panic")
@@ -303,9 +205,19 @@ func (d *c17Dealing) combine(r *verifmc.Run, mi int, S []int) {
 			r.Count("qualified_sets_with_player_powers_beyond_float64", 1)
 		}
 		if err != nil {
-			consistent := shamir.ShoupConsistent(d.l, S, func(j int) *big.Int { return d.ks[j-1].si }, d.e, d.m)
+			readable := true
+			consistent := shamir.ShoupConsistent(d.l, S, func(j int) *big.Int {
+				si := c17KeyShareSecret(&d.ks[j-1])
+				if si == nil {
+					readable = false
+					si = new(big.Int)
+				}
+				return si
+			}, d.e, d.m)
 			cause := "although-the-dealt-key-shares-are-consistent"
-			if !consistent {
+			if !readable {
+				cause = "dealt-key-shares-unreadable-from-their-encoding"
+			} else if !consistent {
 				cause = "dealt-key-shares-not-on-the-sharing-polynomial"
 			}
 			r.Outcome("qualified:error")
@@ -617,7 +529,7 @@ func TestVerifC17_rsa_params(t *testing.T) {
 	if !r.Replaying() {
 		for _, lk := range [][2]uint{{1, 1}, {3, 0}, {3, 4}, {0, 0}} {
 			var err error
-			p, _ := verifmc.Try(func() { _, err = Deal(verifmc.NewDetReader("c17-deal/outside"), lk[0], lk[1], key, false) })
+			p, _ := verifmc.Try(func() { _, err = tss.Deal(verifmc.NewDetReader("c17-deal/outside"), lk[0], lk[1], key, false) })
 			r.Outcome(fmt.Sprintf("Deal(l=%d,k=%d):%s", lk[0], lk[1], map[bool]string{true: "panic", false: map[bool]string{true: "error", false: "accepted"}[err != nil]}[p]))
 		}
 	}
@@ -626,12 +538,4 @@ func TestVerifC17_rsa_params(t *testing.T) {
 	r.RequireCounter("qualified_sets_with_lagrange_products_over_63_bits", 100)
 	r.RequireCounter("qualified_sets_with_player_powers_beyond_float64", 500)
 	r.RequireCounter("unqualified_refused", 300)
-}
-
-// c17DefaultConfigOnly: units whose code under test is math/big only (no CPU-feature dependent paths) run in the
-// default configuration; the other configurations of checks.d/C17.json exist for the Feldman unit (P-384 arithmetic).
-func c17DefaultConfigOnly(t *testing.T) {
-	if c := os.Getenv("VERIF_CONFIG"); c != "" && c != "default" {
-		t.Skip("unit runs in the default configuration only")
-	}
 }
